@@ -304,6 +304,26 @@ func embedAt(form int, tags []string, ft reflect.Type, depth int) (v any, ok boo
 	return reflect.New(t).Elem().Interface(), true
 }
 
+// sameNameEmbedded: struct{ L struct{ F T `tag0` }; M struct{ F T `tag1` } } with L and M embedded: both
+// fields are called F (Go only objects when the ambiguous selector is used); the grammar is tag0 tag1.
+func sameNameEmbedded(form int, tags []string, ft reflect.Type) (v any, ok bool) {
+	defer func() {
+		if recover() != nil {
+			ok = false
+		}
+	}()
+	var fs []reflect.StructField
+	for i, t := range tags {
+		tag := t
+		if form == 1 {
+			tag = fmt.Sprintf("parser:%q", t)
+		}
+		inner := reflect.StructOf([]reflect.StructField{{Name: "F", Type: ft, Tag: reflect.StructTag(tag)}})
+		fs = append(fs, reflect.StructField{Name: fmt.Sprintf("L%d", i), Type: inner, Anonymous: true})
+	}
+	return reflect.New(reflect.StructOf(fs)).Elem().Interface(), true
+}
+
 // soupJob explores every token sequence that starts with the given first token.
 func soupJob(w *hx.Worker, first int, maxLen int, only string) {
 	// job index encodes one token (idx < len(alphabet)) or a two-token prefix
@@ -353,6 +373,18 @@ func soupJob(w *hx.Worker, first int, maxLen int, only string) {
 						if ve, ok := embedAt(form, tags, strT, depth); ok {
 							w.Case(func() string { return ke })
 							judge(w, ke, cl, why, tryBuild(ve))
+						} else {
+							w.Count("struct_type_not_constructible", 1)
+						}
+					}
+				}
+				// the two fields promoted from two different embedded structs under ONE field name
+				if len(toks) <= 3 && split > 0 {
+					ks := fmt.Sprintf("soup form=%d tags=%q two-embedded-structs-same-field-name", form, tags)
+					if only == "" || only == ks {
+						if vs, ok := sameNameEmbedded(form, tags, strT); ok {
+							w.Case(func() string { return ks })
+							judge(w, ks, cl, why, tryBuild(vs))
 						} else {
 							w.Count("struct_type_not_constructible", 1)
 						}
@@ -617,11 +649,59 @@ type StarSelf struct {
 	X string      `"x"`
 }
 
+// recursion through more than one level of slice / pointer
+type TreePS struct {
+	Name     string     `@Ident`
+	Children *[]*TreePS `( "(" @@* ")" )?`
+}
+type TreePP struct {
+	Name string   `@Ident`
+	Next **TreePP `@@?`
+}
+type TreeSS struct {
+	Name string      `@Ident`
+	Kids [][]*TreeSS `( "(" @@* ")" )?`
+}
+
+// capture targets that convert themselves (pointer receivers), alone and as slice elements
+type capStruct struct{ S string }
+
+func (c *capStruct) Capture(values []string) error { c.S = strings.Join(values, ""); return nil }
+
+type txtStruct struct{ S string }
+
+func (t *txtStruct) UnmarshalText(b []byte) error { t.S = string(b); return nil }
+
+type CapOne struct {
+	V capStruct `@Ident`
+}
+type CapPtr struct {
+	V *capStruct `@Ident`
+}
+type CapSlice struct {
+	V []capStruct `@Ident*`
+}
+type CapPtrSlice struct {
+	V []*capStruct `@Ident*`
+}
+type TxtOne struct {
+	V txtStruct `@Ident`
+}
+type TxtSlice struct {
+	V []txtStruct `@Ident*`
+}
+type TxtPtrSlice struct {
+	V []*txtStruct `@Ident*`
+}
+
 var corpus = []struct {
 	name string
 	v    any
 	cl   class
 }{
+	{"TreePS (recursion through *[]*T)", TreePS{}, clOther}, {"TreePP (recursion through **T)", TreePP{}, clOther}, {"TreeSS (recursion through [][]*T)", TreeSS{}, clOther},
+	{"CapOne", CapOne{}, clValid}, {"CapPtr", CapPtr{}, clValid}, {"CapSlice", CapSlice{}, clValid}, {"CapPtrSlice", CapPtrSlice{}, clValid},
+	{"TxtOne", TxtOne{}, clValid}, {"TxtSlice", TxtSlice{}, clValid}, {"TxtPtrSlice", TxtPtrSlice{}, clValid},
 	{"RightRec", RightRec{}, clValid}, {"LeftRec", LeftRec{}, clOther}, {"MutA", MutA{}, clValid}, {"MutLeftA", MutLeftA{}, clOther},
 	{"SliceRec", SliceRec{}, clValid}, {"ViaSlices", ViaSlices{}, clOther}, {"IfaceNoUnion", IfaceNoUnion{}, clOther}, {"EmptyStruct", EmptyStruct{}, clMalformed},
 	{"NoTags", NoTags{}, clMalformed}, {"OnlyUnexported", OnlyUnexported{}, clMalformed}, {"AnonField", AnonField{}, clOther}, {"AnonRec", AnonRec{}, clOther},
